@@ -164,6 +164,40 @@ def reference_resolution_rule(ctx, prop, rid):
                 ok = reached is tgt and (is_rel or not want_rel)
                 r.check(ok, f"tree[{tname}] {ref.name} -> ${{{tgt.name}}}", f"{'relative path' if want_rel else 'path'} reaching {tgt.name}", ix.loc(),
                         why_fail=f"got {out!r}, which reaches {reached.name if reached is not None else 'nothing'}")
+                if not ok:
+                    continue
+                # the same reference inside the expression forms authors write: what surrounds the reference decides only
+                # (a) the current() prefix inside a predicate over a secondary instance, (b) the last-saved instance
+                abs_path = "/" + "/".join([survey.name] + [a.name for a in reversed(anc(tgt)[:-1])] + [tgt.name])
+                forms = [("arith", "${T} + 1", lambda o: o.split(" + 1")[0].strip() == path),
+                         ("twice", "${T} > 0 and ${T} < 9", lambda o: [x.strip() for x in o.replace(" < 9", "").split(" > 0 and ")] == [path, path]),
+                         ("last-saved", "${last-saved#T}", lambda o: o.strip() == f"instance('__last-saved'){abs_path}"),
+                         ("last-saved after a plain reference", "${T} + ${last-saved#T}", lambda o: [x.strip() for x in o.split(" + ")] == [path, f"instance('__last-saved'){abs_path}"])]
+                for q_ in ("'ch'", '"ch"', " 'ch' "):
+                    want_pred = ("current()/" + path) if is_rel else path
+                    forms.append((f"secondary-instance predicate, id written {q_.strip()!r}{' with spaces' if q_ != q_.strip() else ''}", f"instance({q_})/root/item[name = ${{T}} ]/label",
+                                  lambda o, q_=q_, want_pred=want_pred: o.split("[name = ")[-1].split(" ]/label")[0].strip() == want_pred and o.startswith(f"instance({q_})/root/item[")))
+                rep_t = inner_repeat(tgt)
+                if rep_t is not None and rep_t.name not in amb:
+                    ir_ = "indexed-repeat(${T}, ${R}, 1)".replace("${R}", "${" + rep_t.name + "}")
+                    ir2_ = ir_.replace(", 1)", ", 2)")
+                    forms.append(("after two indexed-repeat() calls", f"{ir_} + {ir2_} + ${{T}}", lambda o: o.split(") + ")[-1].strip() == path))
+                    forms.append(("between two indexed-repeat() calls", f"{ir_} + ${{T}} + {ir2_}", lambda o: o.split(") + ")[1].split(" + indexed-repeat(")[0].strip() == path))
+                    forms.append(("before two indexed-repeat() calls", f"${{T}} + {ir_} + {ir2_}", lambda o: o.split(" + indexed-repeat(")[0].strip() == path))
+                    forms.append(("last-saved next to indexed-repeat()", "indexed-repeat(${T}, ${R}, 1) + ${last-saved#T}".replace("${R}", "${" + rep_t.name + "}"),
+                                  lambda o: o.split(") + ")[-1].strip() == f"instance('__last-saved'){abs_path}"))
+                for fname, tmpl, good in forms:
+                    expr = tmpl.replace("${T}", "${" + tgt.name + "}").replace("#T}", "#" + tgt.name + "}")
+                    it.reset([])
+                    try:
+                        o2 = it.call_function(ix, [survey, expr, ref], {}, None, ix.node)
+                        okf = isinstance(o2, str) and bool(good(o2))
+                    except Raised as e:
+                        o2, okf = f"raises {e.exc_name}{e.exc_args}", False
+                    except Exception as e:  # noqa: BLE001 - an oracle that cannot parse the output is a failed obligation
+                        okf = False
+                    r.check(okf, f"tree[{tname}] {ref.name} -> {fname} ${{{tgt.name}}}", f"`{expr}` resolves the reference as the bare form does ({path})", ix.loc(),
+                            why_fail=f"got {o2!r}")
     return r
 
 
